@@ -27,7 +27,8 @@ class BaseSolver(object):
             f.write(out)
 
     def CreateCsvString(self):
-        varlist = self.VariableList
+        # Copy, so that moving 't' to the front does not alter self.VariableList
+        varlist = list(self.VariableList)
         if 't' in varlist:
             varlist.remove('t')
             varlist = ['t', ] + varlist
